@@ -2,6 +2,7 @@ package util
 
 import (
 	"bytes"
+	"errors"
 	"io/ioutil"
 	"os"
 	"path"
@@ -10,7 +11,10 @@ import (
 )
 
 // tempFileSuffix is appended to the file name of a key while its value is written.
+// Keys with this suffix are refused, their files would be overwritten by the temporary files of other keys.
 const tempFileSuffix = ".tmp"
+
+var errInvalidKey = errors.New("invalid key")
 
 type fileStorage struct {
 	dirPath string
@@ -42,6 +46,10 @@ func NewFileStorage(dir string) (Storage, error) {
 // replaced as a whole, and a crash while writing never leaves a
 // partially written value behind.
 func (f *fileStorage) Set(key string, value []byte) error {
+	if isTempFileName(key) {
+		return errInvalidKey
+	}
+
 	path := f.filePathToFile(key)
 	tmp := path + tempFileSuffix
 
@@ -90,6 +98,10 @@ func (f *fileStorage) Get(key string) ([]byte, error) {
 
 // Delete removes the file for the corresponding key.
 func (f *fileStorage) Delete(key string) error {
+	if isTempFileName(key) {
+		return errInvalidKey
+	}
+
 	return os.Remove(f.filePathToFile(key))
 }
 
@@ -98,7 +110,7 @@ func (f *fileStorage) KeysWithSuffix(suffix string) (keys []string, err error) {
 
 	if infos, err = ioutil.ReadDir(f.dir()); err == nil {
 		for _, info := range infos {
-			if info.IsDir() == false && strings.HasSuffix(info.Name(), suffix) == true {
+			if info.IsDir() == false && strings.HasSuffix(info.Name(), suffix) == true && isTempFileName(info.Name()) == false {
 				keys = append(keys, info.Name())
 			}
 		}
@@ -118,7 +130,16 @@ func (f *fileStorage) filePathToFile(file string) string {
 }
 
 func (f *fileStorage) fileForRead(key string) (*os.File, error) {
+	if isTempFileName(key) {
+		return nil, errInvalidKey
+	}
+
 	return os.OpenFile(f.filePathToFile(key), os.O_RDONLY, 0666)
+}
+
+// isTempFileName returns true when the file of the key has the name of a temporary file.
+func isTempFileName(key string) bool {
+	return strings.HasSuffix(removeInvalidFileNameCharacters(key), tempFileSuffix)
 }
 
 // Returns a string where invalid characters (e.g. colon ":" which is not allowed in file names on Window) are removed from fname
